@@ -1,6 +1,7 @@
 package main
 
 import (
+	"strings"
 	"go/types"
 
 	"golang.org/x/tools/go/ssa"
@@ -244,6 +245,19 @@ func (e *Eng) callModsG(fn *ssa.Function, c *ssa.CallCommon, m map[string]bool) 
 			}
 		}
 	}
+	if c.IsInvoke() {
+		if is := e.spec.Ifaces[calleeName(c)]; is != nil {
+			// an interface method under contract: only what its assigns clause lists without "fresh" is a general write
+			calleeGen = map[string]bool{}
+			for _, a := range is.Assigns {
+				if !strings.HasPrefix(a, "fresh ") {
+					for _, r := range e.resolveRegionPattern(a) {
+						calleeGen[r] = true
+					}
+				}
+			}
+		}
+	}
 	for r := range tmp {
 		m[r] = true
 		if saved == nil {
@@ -278,7 +292,10 @@ func (e *Eng) callMods(fn *ssa.Function, c *ssa.CallCommon, m map[string]bool) {
 		name := calleeName(c)
 		if is := e.spec.Ifaces[name]; is != nil {
 			for _, a := range is.Assigns {
-				for _, r := range e.resolveRegionPattern(a) {
+				if strings.HasPrefix(a, "fresh ") {
+					m[frRegion] = true
+				}
+				for _, r := range e.resolveRegionPattern(strings.TrimPrefix(a, "fresh ")) {
 					m[r] = true
 				}
 			}
